@@ -3,5 +3,7 @@
 cd "$(dirname "$0")" || exit 2
 mkdir -p build coq/gen
 python3 translator/py2coq.py "${PYPLATE_REPO:-/repo}" coq/gen >/dev/null
+PYTHONPATH="${PYPLATE_REPO:-/repo}" timeout 300 /venv/bin/python translator/symex.py "${PYPLATE_REPO:-/repo}" coq/gen >/dev/null
+python3 translator/mktie.py coq/gen >/dev/null
 cd coq && coq_makefile -f _CoqProject -o Makefile >/dev/null 2>&1 && timeout 3000 make -k -j16 2>&1 | tail -5
 exit 0
